@@ -39,6 +39,11 @@ HShim ==
      /\ IF f.poi = "free" THEN ht.poi \notin fixedIdx
         ELSE \E k \in DOMAIN Ev.fixed_vals : Ev.fixed_vals[k][1] = ht.poi /\ Ev.fixed_vals[k][2] = PoiValue(f.poi)
      /\ Ev.data = DataOf(f.data)
+     \* the caller's own fixed mask and bounds (where the driver logged them) reach EVERY fit of the test
+     /\ ("held" \in DOMAIN ht =>
+           /\ fixedIdx \ {ht.poi} = {ht.held[h][1] : h \in DOMAIN ht.held}
+           /\ \A h \in DOMAIN ht.held : \E k \in DOMAIN Ev.fixed_vals : Ev.fixed_vals[k] = ht.held[h])
+     /\ ("bounds" \in DOMAIN ht => Ev.bounds = ht.bounds)
   /\ UNCHANGED <<ht, nfit>>
 HRaw == TRaw /\ UNCHANGED <<ht, nfit>>
 HReturn == TReturn /\ nfit' = nfit + 1 /\ UNCHANGED ht
